@@ -175,6 +175,8 @@ def drawdowns(ctx):
         def f(z):
             if z[0] == 'call' and z[1] == ('ext', 'pandas.Series') and len(z[2]) == 1 and all(k in ('index', 'name') for k, _ in z[3]):
                 return z[2][0]
+            if z[0] == 'call' and z[1] == ('ext', 'numpy.fromiter') and len(z[2]) >= 1 and all(k in ('count', 'dtype') for k, _ in z[3]):
+                return z[2][0]          # the numbers an iterator yields, collected into an array
             return None
         return strip_ndarray(T.replace(strip_ndarray(t), f))
     dd_named = dd
@@ -350,11 +352,12 @@ def reporters(ctx):
         # the reporter's own private steps (a helper that derives the two series and hands them back) are read through; the tabled metric functions stay calls
         if depth > 3 or callee.name in table or callee.name == 'aggregate_returns':
             return False
-        if callee.cls is not None:
-            return callee.name.startswith('_') and not callee.name.startswith('__') and callee.cls.name in ('JSONStatistics', 'TearsheetStatistics') and \
+        if callee.cls is not None and callee.cls.name in ('JSONStatistics', 'TearsheetStatistics'):
+            return callee.name.startswith('_') and not callee.name.startswith('__') and \
                 callee.name in ('_calculate_returns', '_append_returns') or (callee.cls is caller.cls and callee.name.startswith('_') and not callee.name.startswith('__')
                                                                               and callee.qn not in ('JSONStatistics._calculate_statistics', 'TearsheetStatistics._plot_txt_curve'))
-        return callee.path.startswith('qstrader/statistics/')
+        # module-level helpers and small record classes of the statistics package (a columns record built from the frame, ...) are read through
+        return callee.path.startswith('qstrader/statistics/') and callee.name != '__init__'
     for host in ('JSONStatistics._calculate_statistics', 'TearsheetStatistics.get_results', 'TearsheetStatistics._plot_txt_curve'):
         fn = ctx.fn(host)
         try:
